@@ -525,8 +525,8 @@ func (vc *VC) ifaceEq(a, b Val) string {
 	for _, x := range []Val{a, b} {
 		var id uint64
 		var w int
-		if _, err := fmt.Sscanf(x.L[0], "(_ bv%d %d)", &id, &w); err == nil && int(id) < len(vc.w.tags.types) {
-			if t := vc.w.tags.types[id]; t != nil {
+		if _, err := fmt.Sscanf(x.L[0], "(_ bv%d %d)", &id, &w); err == nil {
+			if t := vc.w.tags.byID[int(id)]; t != nil {
 				if _, isPtr := t.Underlying().(*types.Pointer); !isPtr && len(layoutOf(t).Leaves) == 0 {
 					return eq(a.L[0], b.L[0])
 				}
